@@ -467,7 +467,7 @@ enum Delivery {
 }
 
 fn turn(l: &mut Live, now: Instant, mid: bool, d: &Delivery) -> String {
-    let mut buf = [0u8; 256];
+    let mut buf = [0xA5u8; 256]; // a dirty transmit buffer (real PHYs reuse theirs)
     let r = l.dp.transmit_telegram(now, &l.fdl, fdl::TelegramTx::new(&mut buf), fdl::HighPrioOnly::No);
     let (tx, exp, seen, rep, got) = match r {
         None => ("-".to_string(), None, false, SReply::Silent, None),
